@@ -49,6 +49,7 @@ def _pos(doc):
     if st != "ok":
         return None
     out = []
+    prev_name, fence_ws = None, 0
     for t in toks:
         if (t.is_end_token and hasattr(t, "start_markdown_token")) or t.line_number <= 0:
             continue
@@ -56,7 +57,15 @@ def _pos(doc):
         cls = t._MarkdownToken__token_class.value
         if cls == 3:
             continue
-        out.append((name, SPEC.get(name, ("any",)), t.line_number, t.column_number, cls in (0, 1)))
+        spec = SPEC.get(name, ("any",))
+        if name == "text" and prev_name == "fcode-block" and t.token_text and t.token_text[0] not in " \n\t\\&\x05\x07\x08" and ord(t.token_text[0]) < 128:
+            # the content of a fenced block: the token points at its first character - or, when the fence itself is indented,
+            # at the start of the indentation that is taken off the content lines
+            spec = ("chars", t.token_text[0]) if not fence_ws else ("chars-after-spaces", t.token_text[0])
+        prev_name = name
+        if name == "fcode-block":
+            fence_ws = len(getattr(t, "extracted_whitespace", "") or "")
+        out.append((name, spec, t.line_number, t.column_number, cls in (0, 1)))
         if name == "setext":
             out.append(("setext-original", ("nonblank",), t.original_line_number, t.original_column_number, False))
     return out
